@@ -72,9 +72,9 @@ def State.ofDump (d : Dump) : State := Id.run do
       | [pk, ow, rw, ct, com, stt, jail, le, tb] =>
         cands := { id := natD id, pubkey := hexNat pk, owner := hexNat ow, reward := hexNat rw, control := hexNat ct, commission := natD com, status := natD stt, jailedUntil := natD jail, lastEditCommission := natD le, totalBip := intD tb, stakes := [], updates := [] } :: cands
       | _ => pure ()
-    | ["st", cid, i] =>
+    | ["st", cid, ow, c] =>
       match vw with
-      | [ow, c, val, bip] => stakes := { cand := natD cid, idx := natD i, st := { owner := hexNat ow, coin := natD c, value := intD val, bip := intD bip } } :: stakes
+      | [i, val, bip] => stakes := { cand := natD cid, idx := natD i, st := { owner := hexNat ow, coin := natD c, value := intD val, bip := intD bip } } :: stakes
       | _ => pure ()
     | ["up", cid, i] =>
       match vw with
